@@ -33,18 +33,20 @@ PROPS = {
                      enum("TestC06UDP6ChecksumSearch", name="TestC06UDP6ChecksumSearch(attribution)"),
                      # what the real capture handle hands to the parsers: exactly the frame that arrived
                      enum("TestC01KernelReadExact")]},
-    "C02": {"jobs": [rapid("TestC02", 1500, 15000), enum("TestC02Product"), enum("TestC02KernelLinkHeaders")]},
-    "C03": {"jobs": [rapid("TestC03Protocol", 1500, 10000), rapid("TestC03Engine", 8000, 60000), rapid("TestC03OutOfRange", 3000, 20000), enum("TestC03AllPairs"), rapid("TestC03Request", 800, 5000)]},
+    "C02": {"jobs": [rapid("TestC02", 1500, 15000), enum("TestC02Product"), enum("TestC02KernelLinkHeaders"), enum("TestC02ServerLongRun", thorough_only=True, timeout_thorough=400)]},
+    "C03": {"jobs": [rapid("TestC03Protocol", 1500, 10000), rapid("TestC03Engine", 8000, 60000), rapid("TestC03OutOfRange", 3000, 20000), enum("TestC03AllPairs"), rapid("TestC03Request", 800, 5000), enum("TestC03KernelLoopbackRuns")]},
     "C04": {"jobs": [rapid("TestC04", 1500, 10000), rapid("TestC04Reuse", 800, 6000), enum("TestC04KernelPaddedReplies")]},
     "C05": {"jobs": [rapid("TestC05", 1500, 15000), rapid("TestC05E2e", 1200, 8000), rapid("TestC05RealTimeStall", 12, 40, shards_thorough=4)]},
-    "C07": {"jobs": [rapid("TestC07", 8000, 60000), enum("TestC07Bounded"), enum("TestC07KernelBurst")]},
+    "C07": {"jobs": [rapid("TestC07", 8000, 60000), enum("TestC07Bounded"), enum("TestC07KernelBurst"),
+                     # the command line's own deadlines and contexts: replies that arrived are in the output
+                     {"kind": "script", "name": "CliFlagsC07", "run": "CliFlagsC07", "cmd": ["python3", "cli_flags.py"], "env": {"CLI_FLAGS_PROP": "C07"}, "timeout_quick": 600, "timeout_thorough": 1800}]},
     "C08": {"jobs": [rapid("TestC08Runs", 800, 5000), rapid("TestC08Engines", 3000, 20000), rapid("TestC08Services", 2000, 10000), rapid("TestC08Request", 1500, 6000), enum("TestC08SharedFetcherRealTime"), enum("TestC08KernelSendError")]},
     "C09": {"jobs": [rapid("TestC09", 3000, 10000), enum("TestC09Truncations"), enum("TestC09TCPOptions"), enum("TestC09KernelFrames")] +
             [fuzz("FuzzC09" + v) for v in ("icmp4", "icmp6", "udp4", "udp6", "tcp", "tcpparis", "sack", "Parser")]},
     "C10": {"jobs": [enum("TestC10Single"), enum("TestC10Paths"), enum("TestC10LateWrite"), enum("TestC10Request"), rapid("TestC10Multi", 2500, 8000),
                      # "the k-th send fails" below the seam: the kernel itself refuses one probe of a real run
                      enum("TestC10KernelSendError"), enum("TestC10KernelFilterNoMem")]},
-    "C06": {"jobs": [rapid("TestC06", 1200, 8000), rapid("TestC06Engine", 4000, 30000), enum("TestC06Reuse"), enum("TestC06AllTTLs"), enum("TestC06UDP6ChecksumSearch"), rapid("TestC06Concurrent", 600, 4000), enum("TestC06KernelSink")]},
+    "C06": {"jobs": [rapid("TestC06", 1200, 8000), rapid("TestC06Engine", 4000, 30000), enum("TestC06Reuse"), enum("TestC06AllTTLs"), enum("TestC06UDP6ChecksumSearch"), rapid("TestC06Concurrent", 600, 4000), enum("TestC06KernelSink"), enum("TestC06KernelLoopbackRuns")]},
     "C20": {"jobs": [enum("TestC20Table"), rapid("TestC20", 2000, 2000), enum("TestC20ConnectTimeout"),
                      # a SACK failure that is not "SACK unavailable", produced by the kernel: the connection's local address differs from the discovered one
                      {"kind": "script", "name": "C20KernelSplitSrc", "run": "C20KernelSplitSrc", "cmd": ["python3", "c13_kernel.py"], "env": {"VERIF_C13_ONLY": "splitsrc", "VERIF_C13_PROP": "C20"}, "timeout_quick": 600, "timeout_thorough": 1200}]},
